@@ -52,6 +52,39 @@ def rid_from_tc(service: IntRange(0, 255), subservice: IntRange(0, 255), apid: I
     ensures("from-ids", both(r2 == r, r2.pack() == r.pack()))
 
 
+@obligation(["C15"], "RequestId/forms-agree-after-use", verifies=[MR + "RequestId.pack", MR + "RequestId.as_u32", MR + "RequestId.__eq__",
+                                                                 MR + "RequestId.__hash__", MR + "RequestId.from_pus_tc"])
+def rid_forms_after_use(u: IntRange(0, 4294967295), apid2: IntRange(0, 2047), count2: IntRange(0, 16383), flags2: EnumOf(SequenceFlags),
+                        ver2: IntRange(0, 7), which: Choice(0, 1, 2, 3, 4), tc_count: IntRange(0, 16383), tc_count2: IntRange(0, 16383)):
+    """the three forms keep agreeing when the object has been used (hashed, converted, packed, compared) and its public
+    attributes - or the packet-ID / sequence-control objects it exposes and shares with the telecommand - change afterwards"""
+    r = RequestId.unpack(be(4, u))
+    before = (hash(r), r.as_u32(), r.pack(), r == RequestId.unpack(be(4, u)))
+    if which == 0:
+        r.tc_psc.seq_count = count2
+    elif which == 1:
+        r.tc_packet_id.apid = apid2
+    elif which == 2:
+        r.tc_psc.seq_flags = flags2
+    elif which == 3:
+        r.ccsds_version = ver2
+    else:
+        r.tc_psc = PacketSeqCtrl(flags2, count2)
+    raw = r.pack()
+    fresh = RequestId.unpack(raw)
+    ensures("u32-is-packed-form", r.as_u32() == from_be(raw))
+    ensures("decoded-form-equal", both(fresh == r, r == fresh, hash(fresh) == hash(r), fresh.as_u32() == r.as_u32()))
+    ensures("packed-follows-attributes", raw == req_id_octets(r.ccsds_version, r.tc_packet_id.ptype, r.tc_packet_id.sec_header_flag,
+                                                               r.tc_packet_id.apid, r.tc_psc.seq_flags, r.tc_psc.seq_count))
+    # the request ID obtained from a telecommand and used, then the telecommand is re-sent with another sequence count
+    tc = PusTc(17, 1, apid2, b"", tc_count)
+    rt = RequestId.from_pus_tc(tc)
+    used = (hash(rt), rt.as_u32(), rt.pack())
+    tc.seq_count = tc_count2
+    ensures("tc-derived-forms-agree", both(rt.as_u32() == from_be(rt.pack()), RequestId.unpack(rt.pack()) == rt,
+                                           hash(RequestId.unpack(rt.pack())) == hash(rt)))
+
+
 @obligation(["C15", "C09"], "RequestId/all-u32", verifies=[MR + "RequestId.unpack", MR + "RequestId.pack", MR + "RequestId.as_u32"])
 def rid_all_u32(u: IntRange(0, 4294967295), suffix: Bytes):
     """packed form, 32-bit integer form and decoded form agree for all 2^32 values"""
